@@ -181,8 +181,8 @@ class Pbox(NominalValueMixin, ABC):
         p_values=None,
     ):
         left, right = left_right_switch(left, right)
-        self.left = np.array(left)
-        self.right = np.array(right)
+        self.left = np.array(left, dtype=float)  # quantile bounds are reals: integer input would make numpy truncate or refuse later operations
+        self.right = np.array(right, dtype=float)
         self.steps = steps
         self.mean = mean
         self.var = var
